@@ -223,7 +223,7 @@ func evalCase(k *kase, opt interp.Options, mainFile, mainSrc string) (r run) {
 	return r
 }
 
-var childDir string
+var childDir, emptyDir string
 
 // C16_FULL_STDLIB=1 loads stdlib.Symbols instead of the single binding (slower; same results)
 var fullStdlib = os.Getenv("C16_FULL_STDLIB") != ""
@@ -247,6 +247,8 @@ func (k *kase) observe() (o obs) {
 			return o
 		}
 		childDir = d
+		emptyDir = filepath.Join(d, "empty")
+		os.Mkdir(emptyDir, 0o755)
 	}
 	root, err := os.MkdirTemp(childDir, "case-")
 	if err != nil {
@@ -264,8 +266,10 @@ func (k *kase) observe() (o obs) {
 	}
 	mainFile := "gp/src/" + k.mainPath()
 	o.Disk = evalCase(k, interp.Options{GoPath: filepath.Join(root, "gp")}, mainFile, mainSrc)
+	// the fs.FS run must not be able to reach the copy on disk by accident: the working
+	// directory is moved to an empty directory first
+	os.Chdir(emptyDir)
 	o.Mem = evalCase(k, interp.Options{GoPath: "gp", SourcecodeFilesystem: mfs}, mainFile, mainSrc)
-	os.Chdir(childDir)
 	return o
 }
 
@@ -483,9 +487,9 @@ func pathOf(d []string) string { return ds(d[lastVendor(d)+1:]) }
 
 var trigText = map[int]string{
 	1: "absolute import path of two equal elements",
-	2: "one import string designates two directories in one program",
+	2: "import strings and directories do not correspond one to one in the program",
 	3: "main file whose location below GOPATH/src matters for the answer",
-	4: "directory <ancestor-or-self of importer>/<path> exists and is not the answer",
+	4: "directory Probe(<ancestor-or-self of importer>, <path>) exists and is not the answer",
 	5: "candidate directory without Go files precedes the answer",
 }
 
@@ -529,6 +533,68 @@ func (k *kase) nontrivial() bool {
 	return false
 }
 
+// stats counts what the cases exercise (evidence, and a vacuity check of the generator).
+func (k *kase) stats(m map[string]int) {
+	m["status_"+k.Status]++
+	m["main_"+k.Sit]++
+	if k.Diamond {
+		m["diamond"]++
+	}
+	if k.Pin != 0 {
+		m["pinned_witness"]++
+	}
+	rel, vend, multi, deepMain := false, false, false, false
+	for _, e := range k.Res {
+		if e.Imp.K != "abs" {
+			rel = true
+			continue
+		}
+		if lastVendor(e.To) >= 0 {
+			vend = true
+			if lastVendor(e.To) > 0 {
+				m["resolutions_to_nested_vendor"]++
+			}
+		}
+		n := 0
+		for _, d := range k.Tree {
+			if pathOf(d) == ds(e.Imp.P) {
+				n++
+			}
+		}
+		if n >= 2 {
+			multi = true
+		}
+		if n >= 3 {
+			m["resolutions_with_3_or_more_copies"]++
+		}
+		if isMain(e.From) && k.Sit == "file" && len(k.Mdir) >= 2 {
+			deepMain = true
+		}
+	}
+	m["resolutions"] += len(k.Res)
+	if rel {
+		m["with_relative_imports"]++
+	}
+	if vend {
+		m["with_vendor_answer"]++
+	}
+	if multi {
+		m["with_path_in_several_places"]++
+	}
+	if deepMain {
+		m["main_file_depth_2_or_more"]++
+	}
+	if len(k.Log) >= 3 {
+		m["three_or_more_packages_initialised"]++
+	}
+	for _, d := range k.Tree {
+		if len(d) >= 4 {
+			m["tree_depth_4_or_more"]++
+			break
+		}
+	}
+}
+
 // ---------------------------------------------------------------------------
 
 func main() { fw.Main("C16", "model_checking", runCheck) }
@@ -562,6 +628,13 @@ func (b bounds) cfg() []byte {
 
 const bothKinds = `{"string", "file"}`
 
+func workers(sim bool) int {
+	if sim {
+		return 1
+	}
+	return 2
+}
+
 type tlcRunner func(name string, b bounds, sim bool, num, depth int, seed int64) error
 
 func runCheck(c *fw.Ctx) error {
@@ -594,11 +667,9 @@ func runCheck(c *fw.Ctx) error {
 	}
 	cover := map[string]int64{}
 	runTLC := func(name string, b bounds, sim bool, num, depth int, seed int64) error {
-		mu.Lock()
-		t0 := len(all)
-		mu.Unlock()
+		n := 0
 		res, err := c.TLC(fw.TLCOpts{Dir: "spec/env", Module: "Resolve", Cfg: name, Files: map[string][]byte{name: b.cfg()}, Simulate: sim,
-			Num: num, Depth: depth, Seed: seed, OnBeh: add, Timeout: 9 * time.Minute, Coverage: os.Getenv("C16_COVER") != ""})
+			Num: num, Depth: depth, Seed: seed, OnBeh: func(r json.RawMessage) { n++; add(r) }, Timeout: 9 * time.Minute, Coverage: os.Getenv("C16_COVER") != "", HeapMB: 1500, Workers: workers(sim)})
 		if err != nil {
 			return err
 		}
@@ -613,7 +684,7 @@ func runCheck(c *fw.Ctx) error {
 		for a, n := range res.Cover {
 			cover[a] += n
 		}
-		fmt.Printf("tlc %-14s %7d behaviours %9d distinct states %6.1fs\n", name, len(all)-t0, res.Distinct, res.Wall.Seconds())
+		fmt.Printf("tlc %-14s %7d behaviours %9d distinct states %6.1fs\n", name, n, res.Distinct, res.Wall.Seconds())
 		mu.Unlock()
 		return nil
 	}
@@ -631,7 +702,81 @@ func runCheck(c *fw.Ctx) error {
 }
 
 func tiers(c *fw.Ctx, runTLC tlcRunner, all *[]kase, cover map[string]int64) error {
-	return fmt.Errorf("tiers not wired yet")
+	type job struct {
+		name       string
+		b          bounds
+		sim        bool
+		num, depth int
+		seed       int64
+	}
+	var jobs []job
+	ex := func(name, spec string, depth, pkgs, imports, perFile, mainDepth int, family, invs, kinds string) {
+		jobs = append(jobs, job{name: name, b: bounds{spec, depth, pkgs, imports, perFile, kinds, mainDepth, true, family, true, invs}})
+	}
+	const strOnly = `{"string"}`
+	// pinned witnesses of the known findings (no exclusions)
+	jobs = append(jobs, job{name: "pin.cfg", b: bounds{"SpecPin", 3, 3, 3, 2, bothKinds, 1, true, "all", false, invGen + " PinTriggers"}})
+	// order independence of the loader (model level only, nothing emitted)
+	if c.Quick() {
+		ex("anyorder.cfg", "SpecAny", 2, 2, 3, 3, 1, "all", invAny, bothKinds)
+		ex("trees2.cfg", "Spec", 3, 2, 2, 2, 1, "all", invGen, bothKinds) // every tree of <= 2 package dirs, chains of 2 imports
+		ex("multi3.cfg", "Spec", 3, 3, 2, 2, 1, "multi", invGen, strOnly) // 3 package dirs, some path in >= 2 places
+		ex("graphs.cfg", "Spec", 2, 3, 3, 2, 1, "all", invGen, strOnly)   // flat trees, every import graph with <= 3 statements
+	} else {
+		ex("anyorder.cfg", "SpecAny", 2, 3, 4, 3, 1, "all", invAny, bothKinds)
+		ex("trees2.cfg", "Spec", 3, 2, 3, 2, 2, "all", invGen, bothKinds)
+		ex("multi3.cfg", "Spec", 3, 3, 3, 2, 1, "multi", invGen, bothKinds)
+		ex("triple4.cfg", "Spec", 3, 4, 3, 2, 1, "triple", invGen, bothKinds) // 4 package dirs, some path in 3 places
+		ex("graphs.cfg", "Spec", 2, 4, 4, 3, 1, "all", invGen, bothKinds)     // flat trees, <= 4 packages, every DAG / cyclic graph with <= 4 statements
+	}
+	nsim := c.Pick(3, 24)
+	for j := 0; j < nsim; j++ {
+		jobs = append(jobs, job{name: fmt.Sprintf("sim%d.cfg", j), sim: true, num: c.Pick(2, 6), depth: 1500, seed: c.Seed*1000 + int64(j),
+			b: bounds{"SpecSim", 4 + j%2, 6, 7, 3, bothKinds, 3, true, "all", true, invGen}})
+	}
+	sem := make(chan struct{}, 4) // at most 4 JVMs (<= 8 worker threads) at a time
+	errs := make([]error, len(jobs))
+	var wg sync.WaitGroup
+	for i, j := range jobs {
+		wg.Add(1)
+		sem <- struct{}{}
+		go func(i int, j job) {
+			defer wg.Done()
+			defer func() { <-sem }()
+			errs[i] = runTLC(j.name, j.b, j.sim, j.num, j.depth, j.seed)
+		}(i, j)
+	}
+	wg.Wait()
+	for _, e := range errs {
+		if e != nil {
+			return e
+		}
+	}
+	// distinct cases only
+	seen := map[string]bool{}
+	var uniq []kase
+	pins := 0
+	for _, k := range *all {
+		key := k.key()
+		if seen[key] && k.Pin == 0 {
+			continue
+		}
+		seen[key] = true
+		if k.Pin != 0 {
+			pins++
+		}
+		uniq = append(uniq, k)
+	}
+	if pins != 5 {
+		return fmt.Errorf("expected 5 pinned witnesses, the specification produced %d", pins)
+	}
+	fmt.Printf("%d behaviours, %d distinct cases\n", len(*all), len(uniq))
+	c.Exhaustive = false
+	c.Extra["exhaustive_parts"] = "trees*.cfg and graphs.cfg are exhaustive within their bounds (minus the named exclusions); sim*.cfg are seeded"
+	if len(cover) > 0 {
+		c.Extra["tlc_action_coverage"] = cover
+	}
+	return check(c, uniq, c.Pick(24, 400))
 }
 
 var dump = os.Getenv("C16_DUMP") != ""
@@ -657,6 +802,11 @@ func check(c *fw.Ctx, all []kase, nativeSample int) error {
 	var bads []bad
 	var good []*kase
 	exact := 0
+	stat, _ := c.Extra["case_statistics"].(map[string]int)
+	if stat == nil {
+		stat = map[string]int{}
+		c.Extra["case_statistics"] = stat
+	}
 	for ji, r := range results {
 		var os_ []obs
 		if r.Out != nil {
@@ -666,6 +816,7 @@ func check(c *fw.Ctx, all []kase, nativeSample int) error {
 			k := &all[ji*chunk+x]
 			c.Count(k.key(), k.nontrivial())
 			c.TracesVsImpl++
+			k.stats(stat)
 			if x == 0 && ji%7 == 0 {
 				pk, ms := k.files()
 				c.Sample(map[string]any{"tree": k.Tree, "situation": k.Sit, "main_dir": ds(k.Mdir), "main": ms, "files": pk, "expected_log": k.Log, "expected_status": k.Status})
